@@ -1389,6 +1389,38 @@ def _c32(ctx, n, MAXL):
             "all names of <= 4 letters with any u32 spacer mask; 27-/28-letter names (21 values each at the first 27-letter, first 28-letter name and below u128::MAX) with single high spacer bits, MAX_SPACERS and u32::MAX",
             "dev", ob_spaced_roundtrip, lambda v: _rep_spaced_roundtrip(ctx, v))
 
+    def ob_spaced_boundaries(ob):
+        """concrete evaluation: SpacedRune Display then FromStr at name-length boundaries with spacer
+        masks around the last letter"""
+        exq = ob.ex()
+        fs = exq.find_impl_fn("spaced_rune", "from_str", r"^impl FromStr for SpacedRune")
+        ob.vars = {}
+        firsts = {L: sum(26 ** i for i in range(1, L)) for L in range(1, 29)}      # first name with L letters
+        for L in (1, 2, 3, 5, 13, 14, 26, 27, 28):
+            for val in sorted({firsts[L], min(firsts[L] + 26 ** L - 1, U128)}):
+                masks = {0, 1, 0x07FFFFFF, 2 ** 32 - 1, 1 << 25, 1 << 26, 1 << 27}
+                if L >= 2:
+                    masks |= {1 << (L - 2), (1 << (L - 1)) - 1}
+                masks |= {1 << (L - 1), 1 << L}
+                for spv in sorted(m for m in masks if 0 <= m < 2 ** 32):
+                    for r, chars in run_display(ob, exq, r"^impl Display for SpacedRune", "spaced_rune", Struct([Struct([val]), spv]), []):
+                        if r.kind != "return" or chars is None:
+                            ob.cex.append(("SpacedRune Display fails", {"n": val, "spacers": spv}))
+                            continue
+                        st = X.State(); st.pc = list(r.pc)
+                        for r2 in exq.run(fs, [X.SymStr("printed", chars=chars)], st):
+                            ob.paths += 1
+                            ob.queries += 1
+                            ob.witness = True
+                            want_sp = spv % (1 << (L - 1)) if L >= 1 else 0
+                            ok_ = (r2.kind == "return" and r2.value.variant == 0 and X.is_conc(r2.value.fields[0][0][0]) and r2.value.fields[0][0][0] == val
+                                   and X.is_conc(r2.value.fields[0][1]) and r2.value.fields[0][1] == want_sp)
+                            if not ok_:
+                                ob.cex.append(("a spaced rune does not round-trip through Display and FromStr", {"n": val, "spacers": spv}))
+    guarded(ctx, "c32_spaced_rune_boundary_roundtrip", "printing then parsing a spaced rune returns the same rune and the spacers below its last letter",
+            "concrete execution of the MIR (not a solver range: the symbolic SpacedRune claim does not finish) at the first and last names with 1, 2, 3, 5, 13, 14, 26, 27, 28 letters, each with spacer masks 0, 1, the highest kept bit, the first dropped bits, all kept bits, bits 25..27, MAX_SPACERS and u32::MAX",
+            "dev", ob_spaced_boundaries, lambda v: _rep_spaced_roundtrip(ctx, v))
+
     def ob_print_max(ob):
         ob.vars = {"n": n}
         exq = ob.ex()
